@@ -110,10 +110,23 @@ def global_writes(ctx):
     return out
 
 
-def r11_1_inventory(ctx):
+def r11_1_inventory(ctx, only_under=None):
     ctx.rule("R11.1", "the inventory of process-global mutable state written from inside functions is closed: every such write is one of the frozen, individually justified entries")
     writes = global_writes(ctx)
     seen = set()
+    if only_under is not None:
+        # shared into other properties: only the writes made from the named part of the tree
+        n = 0
+        for fn, loc, where in writes:
+            if not str(where).startswith(only_under):
+                continue
+            n += 1
+            if (fn, loc) in INVENTORY:
+                ctx.ok("R11.1", f"{fn}:{loc}", {"reason": INVENTORY[(fn, loc)]}, where)
+            else:
+                ctx.bad("R11.1", f"{fn}:{loc}", f"new write to process-global state `{loc}` in {fn}: what is computed for one value could now depend on what was built earlier in the process", where)
+        ctx.ok("R11.1", f"global-writes-under:{only_under}", {"writes": n, "scanned_functions": sum(1 for _ in ctx.model.iter_funcs())}, only_under)
+        return
     for fn, loc, where in writes:
         key = (fn, loc)
         seen.add(key)
